@@ -12,4 +12,12 @@ theorem update_loop_flow :
       ["range {", "call o.replyEvent", "if err == io.EOF {", "call o.removeSignalUser", "if err != nil && ret == nil {",
        "}", "}", "else {", "if err != nil {", "}", "}", "}", "return ret"] := rfl
 
+/-- `OnTerminate` of the signal handler: the list of subscribers is taken and replaced by a new one under the lock
+    (one read of the field, one assignment whose right-hand side does not read it), then every subscriber of the taken
+    list is told and its watcher removed — what Props/C16 `remove_tells_subscribers` says of the model -/
+theorem on_terminate_flow :
+    Gen.Signals.OnTerminateFlow =
+      ["signalsMutex.Lock", "use signals", "assign signals", "signalsMutex.Unlock", "range {", "call o.sendTerminate",
+       "call user.context.EndPoint().RemoveHandler", "}"] := rfl
+
 end QiVerif.Tie.UpdateLoop
